@@ -382,10 +382,31 @@ def r8(text, ctx):
         for i, t in enumerate(toks):
             if t.kind == 'ident' and t.text == 'Box' and i + 3 < len(toks) and toks[i + 1].text == '::' and toks[i + 2].text == 'new' and toks[i + 3].text == '(':
                 k = match_close(toks, i + 3)
-                inner = text[toks[i + 3].end:toks[k].start].strip()
+                inner = text[toks[i + 3].end:toks[k].start].strip().rstrip(',').strip()
                 if re.search(r'\.into_iter\(\)$', inner):
                     hit = (i, k, inner)
                     break
+                if re.search(r'\.read_dir\((world)?\)\?$', inner):
+                    hit = (i, k, inner)
+                    break
+                it = lex(inner)
+                # E.map(CLOSURE) as the last call of the chain
+                if it and it[-1].text == ')':
+                    depth = 0
+                    o = None
+                    for q in range(len(it) - 1, -1, -1):
+                        if it[q].text == ')':
+                            depth += 1
+                        elif it[q].text == '(':
+                            depth -= 1
+                            if depth == 0:
+                                o = q
+                                break
+                    if o is not None and o >= 2 and it[o - 1].text == 'map' and it[o - 2].text == '.' and it[o + 1].text in ('|', 'move', '||'):
+                        recv = inner[:it[o - 2].start].strip()
+                        clo = inner[it[o].end:it[-1].start].strip()
+                        hit = (i, k, 'verif_iter_map(%s, %s)' % (recv, clo))
+                        break
         if not hit:
             break
         i, k, inner = hit
@@ -650,14 +671,28 @@ def r27(text, ctx):
     return sig + '\x00' + body, n
 
 
-@rule('R28', '`"lit".into()` at type Arc<str> -> `verif_str_into_arc("lit")` (external_body wrapper; `Arc<str>: From<&str>` cannot be given an assume_specification because of its lifetime binder)')
+@rule('R28', '`path: "lit".into()` (field of type Arc<str>) -> `path: verif_str_into_arc("lit")` (external_body wrapper; `Arc<str>: From<&str>` cannot be given an assume_specification because of its lifetime binder); '
+             '`verif_concatN(..).into()` -> `Arc::<str>::from(verif_concatN(..))` (definition of the blanket `Into`)')
 def r28(text, ctx):
     n = 0
     def sub(m):
         nonlocal n
         n += 1
-        return 'verif_str_into_arc(%s)' % m.group(1)
-    out = re.sub(r'("(?:[^"\\]|\\.)*")\s*\.into\(\)', sub, text)
+        return 'path: verif_str_into_arc(%s)' % m.group(1)
+    out = re.sub(r'\bpath\s*:\s*("(?:[^"\\]|\\.)*")\s*\.into\(\)', sub, text)
+    while True:
+        toks = lex(out)
+        hit = None
+        for i, t in enumerate(toks):
+            if t.kind == 'ident' and re.match(r'verif_concat\d$', t.text) and toks[i + 1].text == '(':
+                k = match_close(toks, i + 1)
+                if k + 4 < len(toks) and toks[k + 1].text == '.' and toks[k + 2].text == 'into' and toks[k + 3].text == '(' and toks[k + 4].text == ')':
+                    hit = (toks[i].start, toks[k].end, toks[k + 4].end)
+                    break
+        if not hit:
+            break
+        out = out[:hit[0]] + 'Arc::<str>::from(' + out[hit[0]:hit[1]] + ')' + out[hit[2]:]
+        n += 1
     return out, n
 
 
